@@ -245,6 +245,10 @@ ROUND7 = {'C01': ' Round 7: PFlow.nr_step evaluation-point clause (the Jacobian 
 for _k, _v in ROUND7.items():
     ADDED[_k] = ADDED.get(_k, '') + _v
 
+ROUND8 = {'C03': ' Round 8: JacTriplet.clear_ijv with the name tuples of andes.shared bound as the working tree defines them; native append / clear replay.', 'C05': ' Round 8: DAE.resize_arrays / _extend_or_slice (vectors grown for the dynamic models keep what the power flow solved).', 'C06': ' Round 8: nothing new was needed (the head of store_switch_times and the event runs reported the change).', 'C09': ' Round 8: recorder replay of Model.l_update_var (every component with a check_var is updated in every iteration).', 'C12': ' Round 8: PFlow.run clause (with check_conn = 1 the islands are recomputed in this run before PFlow.init) with a native replay.', 'C13': ' Round 8: obligations over the PSS/E DYR import table (status hand-over, destination parameters exist, bound names; defects F37 and F38 fixed) and two bounded native checks of RAW / DYR pairs against the text of the files.', 'C14': ' Round 8: ConnMan.init and DAE.resize_arrays imported; reset-then-power-flow on a case with an out-of-service bus.', 'C15': ' Round 8: stub replay of DAE.store (stored rows are copies: vectors updated in place between calls).', 'C17': ' Round 8: nothing new was needed (ImplicitIter.step: a failed step restores x, y and f).', 'C20': ' Round 8: native replay of Config.check (only a declared choice passes).', 'C01': ' Round 8: PFlow.run islands clause shared with C12.'}
+for _k, _v in ROUND8.items():
+    ADDED[_k] = ADDED.get(_k, '') + _v
+
 TECH_SUFFIX = ('; native replay of counter-models and of undecided obligations on the real code; bounded stand-ins are labelled and '
                'not counted')
 
